@@ -17,6 +17,14 @@ run(ctx):
      random positions of the histories and in the tail, on both sides of the lock-step, so everything
      the format has to carry about "visitCounts" / "turnIndices" is observed after a load — a save that
      is self-consistent (re-save identical) but lossy is still seen.
+  7. random counter (seeded change C02c / previousRandom read back as unsigned): generated LIST programs
+     (gen_ink.listify with list_random > 0: LIST_RANDOM of variables / LIST_ALL(..), RANDOM beside them, rare
+     SEED_RANDOM) and two hand-written ones, so that saves are taken while previousRandom holds every kind of value
+     it can have in this port (0, a small count, the raw 32-bit draw of LIST_RANDOM: negative half of the time);
+     most programs also get a function `verif_rnd` printing two RANDOM draws, called (EVAL) in the tail on both
+     sides of the lock-step: what the save carries about the generator (storySeed, previousRandom) is observed
+     as BEHAVIOUR after a load, not only as a field of the re-save.  A difference confined to the scalar fields
+     of the save gets the key `save-field-not-restored:<fields>`.
 Every disagreement of 5 is a violation with program + history as replay and a stable key.
 """
 import json, os, re, hashlib
@@ -232,6 +240,42 @@ Turns since: cellar {TURNS_SINCE(-> cellar)} landing {TURNS_SINCE(-> landing)} h
 -> landing
 """
 
+# regression (seeded change C02c): previousRandom after LIST_RANDOM is the raw 32-bit draw (negative half of the
+# time); saved there, the rolls after the load must be those of the original
+HAND["list-random"] = """LIST colours = red, green, blue, yellow
+VAR picked = ()
+VAR n = 0
+-> draw
+=== draw
+~ picked = LIST_RANDOM(LIST_ALL(colours))
+Picked {picked}.
+Roll {RANDOM(1, 1000000)}.
+~ n = n + 1
++ [again] -> draw
++ [reseed] 
+  ~ SEED_RANDOM(n)
+  -> draw
+* [roll] Roll {RANDOM(1, 1000000)} and {LIST_RANDOM(colours + red)}.
+  -> draw
+* [stop] Last {RANDOM(1, 6)} {~a|b|c|d}.
+  -> END
+"""
+HAND["list-random-lines"] = """LIST L = a, (b), c
+LIST M = (x), y
+VAR v = ()
+-> top
+=== top
+one {LIST_RANDOM(LIST_ALL(L))}
+two {LIST_RANDOM(L + M)}
+~ v = LIST_RANDOM(LIST_ALL(M))
+three {v} {RANDOM(1, 100)}
+four {LIST_RANDOM(LIST_ALL(L) + LIST_ALL(M))} {RANDOM(1, 100)}
+five {LIST_RANDOM(v)} {~p|q|r}
++ [more] -> top
+* [end] {RANDOM(1, 100)}
+  -> END
+"""
+
 FLOW_PROGRAM = """VAR shared = 0
 -> main
 === main
@@ -294,6 +338,9 @@ LIST_STORY = {
 
 # ---------------------------------------------------------------- counters probe
 PROBE = "verif_probe"
+RNDPROBE = "verif_rnd"      # two RANDOM draws: what a save carries about the generator, observed as behaviour
+RNDPROBE_INK = "=== function " + RNDPROBE + "() ===\n{RANDOM(1, 1000000)},{RANDOM(1, 1000000)}\n"
+RNDPROBE_JSON = ["ev", 1, 1000000, "rnd", "out", "/ev", "^,", "ev", 1, 1000000, "rnd", "out", "/ev", "\n", {"#f": 1}]
 
 
 def ink_places(src):
@@ -320,7 +367,8 @@ def add_probe_ink(src, places=None):
     if not places or PROBE in src:
         return None
     line = ",".join("{TURNS_SINCE(-> %s)}" % k for k in places) + "|" + ",".join("{%s}" % k for k in places)
-    return src.rstrip("\n") + "\n=== function " + PROBE + "() ===\n" + line + "\n"
+    return src.rstrip("\n") + "\n=== function " + PROBE + "() ===\n" + line + "\n" \
+        + (RNDPROBE_INK if RNDPROBE not in src else "")
 
 
 def add_probe_json(sj):
@@ -351,6 +399,8 @@ def add_probe_json(sj):
     for i, k in enumerate(knots):
         body += (["^,"] if i else []) + ["ev", {"CNT?": k}, "out", "/ev"]
     named[PROBE] = body + ["\n", {"#f": 1}]
+    if RNDPROBE not in named:
+        named[RNDPROBE] = json.loads(json.dumps(RNDPROBE_JSON))
     return sj
 
 
@@ -408,6 +458,8 @@ def programs(ctx):
     progs = []
     for name, src in HAND.items():
         progs.append(dict(id="hand:" + name, ink=src, weight=3))
+        if "LIST_RANDOM" in src:
+            progs[-1]["list_random"] = True
     progs.append(dict(id="hand:flows", ink=FLOW_PROGRAM, weight=6, flows=["side", "other"]))
     progs.append(dict(id="hand:lists", story=json.dumps(LIST_STORY), weight=3))
     corpus = common.corpus_json()
@@ -425,6 +477,14 @@ def programs(ctx):
             src, ast = gen_ink.gen_program(ctx.rng, **kw)
             progs.append(dict(id=f"gen:{i}", ink=src, weight=2))
         ctx.coverage["gen_ink"] = n
+        # LIST programs with LIST_RANDOM / RANDOM / SEED_RANDOM spread over them (own ids; the programs above are
+        # generated exactly as before)
+        nl = 14 if ctx.quick() else 200
+        for i in range(nl):
+            _src, ast = gen_ink.gen_program(ctx.rng, n_funcs=(0, 1), max_sections=2, n_gstrs=(0, 1), n_knots=(2, 3))
+            gen_ink.listify(ctx.rng, ast, list_random=ctx.rng.choice([0.15, 0.3, 0.5]))
+            progs.append(dict(id=f"genlist:{i}", ink=gen_ink.print_program(ast), weight=2, list_random=True))
+        ctx.coverage["gen_ink_list_random"] = nl
     except Exception as e:      # generator absent or broken: hand-written + corpus only
         ctx.notes.append(f"tools/gen_ink.py not usable ({type(e).__name__}: {e}); corpus and hand-written programs only")
         ctx.coverage["gen_ink"] = 0
@@ -432,7 +492,9 @@ def programs(ctx):
     out, nprobe = [], 0
     for p in progs:
         kind = p["id"].split(":")[0]
-        q = with_probe(p) if (kind == "hand" or ctx.rng.random() < (0.75 if kind == "gen" else 0.5)) else None
+        q = with_probe(p) if (kind == "hand" or ctx.rng.random() < (0.75 if kind in ("gen", "genlist") else 0.5)) else None
+        if q is not None and p.get("list_random"):
+            q["list_random"] = True
         if q is None or kind == "hand":
             out.append(p)
         if q is not None:
@@ -490,6 +552,14 @@ def parse_summary(summ):
         return None
     return dict(can=m.group(1) == "1", text=m.group(2), nchoices=quoted_items(m.group(4)),
                 choices=m.group(4), nerr=int(m.group(5)), nwarn=int(m.group(6)))
+
+
+def canon_save(l):
+    """the origin names of an empty list are collected in HashMap order (a fresh order in every Story instance):
+    a save is compared with them as a set"""
+    def fix(m):
+        return '"origins":[' + ",".join(sorted(set(x for x in m.group(1).split(",") if x))) + "]"
+    return re.sub(r'"origins":\[([^\]]*)\]', fix, l) if '"origins":[' in l else l
 
 
 def observable(line):
@@ -569,9 +639,30 @@ def grow_histories(ctx, exe, progs, per_prog, max_len):
 
 
 # ---------------------------------------------------------------- oracle (implementation only)
+SCALAR_FIELDS = {"previousRandom", "storySeed", "turnIdx", "inkSaveVersion", "inkFormatVersion", "currentFlowName"}
+
+
+def dump_fields_diff(a, b):
+    """top-level fields in which two SHOWSAVE results 'ok({..})' differ (None: not two readable dumps)"""
+    try:
+        def js(t):      # the dump escapes as \u{a}: make it JSON
+            return json.loads(re.sub(r"\\u\{([0-9a-fA-F]+)\}", lambda m: "\\u%04x" % min(int(m.group(1), 16), 0xffff), t[3:-1]))
+        x, y = js(a), js(b)
+        if not (a.startswith("ok(") and isinstance(x, dict) and isinstance(y, dict)):
+            return None
+        return sorted(k for k in set(x) | set(y) if x.get(k, "<absent>") != y.get(k, "<absent>"))
+    except Exception:
+        return None
+
+
 def classify(prog, hist, b, before_dump, first):
     """stable key of a lock-step disagreement"""
     dump = before_dump or ""
+    if first.get("fields") and set(first["fields"]) <= SCALAR_FIELDS:
+        # the two saves differ only in scalar fields of the top level (random counter, seed, turn index ...)
+        return "save-field-not-restored:" + ",".join(first["fields"])
+    if first.get("probe") == ["EVAL", RNDPROBE]:
+        return "random-generator-state-not-restored"
     if first.get("op") == ["EVAL", PROBE] or first.get("probe") == ["EVAL", PROBE]:
         # the counters probe is the first thing that differs: which half of it?
         a, c = probe_parts(first.get("original")), probe_parts(first.get("restored"))
@@ -610,9 +701,9 @@ def oracle(ctx, exe, hists, all_boundaries=True):
     for hi, h in enumerate(hists):
         p, H = h["prog"], h["ops"]
         gl, kn = story_probes(p.get("_sj") or {})
-        kn = [k for k in kn if k != PROBE]
+        kn = [k for k in kn if k not in (PROBE, RNDPROBE)]
         tail = [["GETVAR", g] for g in gl[:12]] + [["VISITS", k] for k in kn[:12]] \
-            + [["SHOWSAVE"]] + ([["EVAL", PROBE], ["SHOWSAVE"]] if p.get("probe") else [])
+            + [["SHOWSAVE"]] + ([["EVAL", PROBE], ["SHOWSAVE"], ["EVAL", RNDPROBE], ["SHOWSAVE"]] if p.get("probe") else [])
         h["tail"] = tail
         cases.append(base_case(p, f"o{hi}", [x for op in H for x in (["SHOWSAVE"], op)] + tail))
         meta.append((hi, None))
@@ -632,7 +723,7 @@ def oracle(ctx, exe, hists, all_boundaries=True):
         if not ro or ro.get("out_of_fuel") or ro.get("crash") is not None:
             skipped += 1
             continue
-        ol = ro.get("lines", [])
+        ol = [canon_save(l) for l in ro.get("lines", [])]
         n = len(H)
         if len(ol) != 1 + 2 * n + len(tail):
             skipped += 1
@@ -650,7 +741,7 @@ def oracle(ctx, exe, hists, all_boundaries=True):
             if rb.get("out_of_fuel") or rb.get("crash") is not None:
                 skipped += 1
                 continue
-            bl = rb.get("lines", [])
+            bl = [canon_save(l) for l in rb.get("lines", [])]
             if len(bl) != 1 + b + 3 + (n - b) + len(tail):
                 skipped += 1
                 continue
@@ -681,7 +772,8 @@ def oracle(ctx, exe, hists, all_boundaries=True):
                     first = dict(where="load", original=split_line(o_state(b))[1], restored=load_summ,
                                  more_choices=sl["nchoices"] > so["nchoices"])
                 elif split_line(bl[3 + b])[0] != dump_b:
-                    first = dict(where="resave", original=dump_b[:600], restored=split_line(bl[3 + b])[0][:600])
+                    first = dict(where="resave", fields=dump_fields_diff(dump_b, split_line(bl[3 + b])[0]),
+                                 original=dump_b[:600], restored=split_line(bl[3 + b])[0][:600])
             if first is None:
                 for i in range(b, n):
                     nlock += 1
@@ -695,6 +787,8 @@ def oracle(ctx, exe, hists, all_boundaries=True):
                     a, c = observable(ol[1 + 2 * n + k]), observable(bl[4 + n + k])
                     if a != c:
                         first = dict(where="end-state", probe=tail[k], original=a[:600], restored=c[:600])
+                        if tail[k] == ["SHOWSAVE"]:
+                            first["fields"] = dump_fields_diff(split_line(ol[1 + 2 * n + k])[0], split_line(bl[4 + n + k])[0])
                         break
             if first is not None:
                 key = classify(p, H, b, dump_b, first)
@@ -706,7 +800,16 @@ def oracle(ctx, exe, hists, all_boundaries=True):
 
 # ---------------------------------------------------------------- correspondence
 def correspondence(ctx, exe, hists, nmax):
-    sample = hists if len(hists) <= nmax else ctx.rng.sample(hists, nmax)
+    if len(hists) <= nmax:
+        sample = hists
+    else:
+        # an eighth of the sample from the LIST_RANDOM programs (model and code must agree on the random counter in
+        # saves and on the draws after a load), the rest from all histories
+        lr = [h for h in hists if h["prog"].get("list_random") and len(h["ops"]) >= 2]
+        forced = ctx.rng.sample(lr, min(len(lr), nmax // 8))
+        rest = [h for h in hists if not any(h is f for f in forced)]
+        sample = forced + ctx.rng.sample(rest, nmax - len(forced))
+    ctx.coverage["correspondence_list_random_cases"] = sum(1 for h in sample if h["prog"].get("list_random"))
     cases = []
     for i, h in enumerate(sample):
         H = h["ops"]
@@ -733,6 +836,15 @@ def correspondence(ctx, exe, hists, nmax):
             # the Coq libraries on disk are being rebuilt by someone else: the check cannot run (exit 2),
             # this says nothing about the property
             raise RuntimeError("model libraries are inconsistent on disk (concurrent rebuild?): " + errs[0][-300:])
+    for r in res:
+        # origin names of empty lists: HashMap order in the implementation, compared as a set
+        if r["status"] == "mismatch" and r.get("model_lines") is not None and r.get("impl_lines") is not None \
+                and len(r["model_lines"]) == len(r["impl_lines"]) \
+                and all(engine.lines_agree(canon_save(engine.canon_line(a)), canon_save(engine.canon_line(b_)))
+                        for a, b_ in zip(r["impl_lines"], r["model_lines"])):
+            r["status"] = "agree"
+            r.pop("first_diff", None)
+            ctx.coverage["correspondence_agree_up_to_origin_order"] = ctx.coverage.get("correspondence_agree_up_to_origin_order", 0) + 1
     # are the hypotheses of the round-trip theorems met on the states the histories reach? (model only)
     nprobe = min(len(cases), 12 if ctx.quick() else 200)
     bits = {"states": 0, "wf_world_b": 0, "at_save_point": 0, "resave_hyp_b": 0, "no_alias_entry": 0}
@@ -795,7 +907,10 @@ def run(ctx):
              "flow program); a save point after every op of every history; lock-step through the rest of the history, "
              "then GETVAR of all globals, VISITS of all knots, SHOWSAVE; counters probe: a function printing TURNS_SINCE "
              "and the visit count of every knot / stitch is added to most programs (count flags on all of them) and "
-             "called (EVAL) at random positions of the history and in the tail",
+             "called (EVAL) at random positions of the history and in the tail; random counter: generated LIST programs "
+             "with LIST_RANDOM / RANDOM / SEED_RANDOM spread over them (gen_ink.listify list_random > 0) and two "
+             "hand-written ones, a function printing two RANDOM draws called (EVAL) in the tail of every probed program; "
+             "saves compared with the origin names of empty lists as a set",
         programs=len(progs), histories=len(hists), history_ops=ops_total,
         oracle=ostat, correspondence=cstat, traces_validated_against_impl=cstat.get("agree", 0),
         correspondence_mismatches=len(mism),
